@@ -1,4 +1,4 @@
-from vf2.spec import *
+from vf.spec import *
 JD = ListT(INT, tagged=True); JDS = ListT(JD); SIZES = ListT(INT)
 def build(reg):
     reg.specfun("colsum", [("jds", JDS), ("c", INT), ("n", INT)], INT, base="0", rec="colsum(jds, c, n - 1) + jds[n - 1][c]")
